@@ -145,7 +145,12 @@ func (g *Gen) hardFloatCase(e, p int) (d128.Decimal, bool) {
 // ratFarSticky solves for a quotient A / B (both of at most 34 digits) whose decimal expansion is K (34 digits), then a
 // guard digit gd, then at least eight zeros, and only then something non-zero: the inexactness is decided by a remainder
 // that is tiny compared with the divisor.  (10K + gd) * B + r = A * 10^(s+1) with 0 < r < B / 10^8.
-func (g *Gen) ratFarSticky(gd int) (a, b *big.Int, ok bool) {
+func (g *Gen) ratFarSticky(gd int) (a, b *big.Int, ok bool) { return g.ratFarStickySigned(gd, false) }
+
+// with below set the remainder is negative: the quotient lies just BELOW 10K + gd, so its expansion is the 34 digits, the
+// guard digit gd - 1 (with a borrow for gd = 0), then at least eight NINES -- a quotient taken with floor instead of
+// truncation, or a sticky flag of the wrong sign, shows there
+func (g *Gen) ratFarStickySigned(gd int, below bool) (a, b *big.Int, ok bool) {
 	nb := 10 + g.r.Intn(20) // digits of B
 	s := nb
 	for {
@@ -159,8 +164,14 @@ func (g *Gen) ratFarSticky(gd int) (a, b *big.Int, ok bool) {
 	r := new(big.Int).Rand(g.r, new(big.Int).Div(b, pow10(9)))
 	r.Add(r, big.NewInt(1))
 	want := new(big.Int).Mod(new(big.Int).Neg(new(big.Int).Mul(big.NewInt(int64(gd)), b)), big.NewInt(10))
+	if below {
+		want.Mod(new(big.Int).Neg(want), big.NewInt(10))
+	}
 	for new(big.Int).Mod(r, big.NewInt(10)).Cmp(want) != 0 {
 		r.Add(r, big.NewInt(1))
+	}
+	if below {
+		r.Neg(r)
 	}
 	inv := new(big.Int).ModInverse(b, mod)
 	if inv == nil {
@@ -182,4 +193,97 @@ func (g *Gen) ratFarSticky(gd int) (a, b *big.Int, ok bool) {
 		return nil, nil, false
 	}
 	return a, b, true
+}
+
+// ratFarStickySmall: like ratFarSticky, but with both A and B below limit (so that they can be multiplied by a common
+// power of two: the remainders of the long division are then all multiples of that power, i.e. have zero low bits/words).
+// A * 10^35 = (10K + gd) * B + r with 0 < r < B / 10^8, K of exactly 34 digits.
+func (g *Gen) ratFarStickySmall(gd int, limit *big.Int) (a, b *big.Int, ok bool) {
+	nb := len(limit.String()) - 1
+	for {
+		b = randDigits(g.r, nb)
+		if b.Bit(0) == 1 && new(big.Int).Mod(b, big.NewInt(5)).Sign() != 0 {
+			break
+		}
+	}
+	scale := pow10(35)
+	r := new(big.Int).Rand(g.r, new(big.Int).Div(b, pow10(9)))
+	r.Add(r, big.NewInt(1))
+	// (10K + gd) * B = A * 10^35 - r  =>  gd * B = -r (mod 10)
+	want := new(big.Int).Mod(new(big.Int).Neg(new(big.Int).Mul(big.NewInt(int64(gd)), b)), big.NewInt(10))
+	for new(big.Int).Mod(r, big.NewInt(10)).Cmp(want) != 0 {
+		r.Add(r, big.NewInt(1))
+	}
+	inv := new(big.Int).ModInverse(new(big.Int).Mod(scale, b), b)
+	if inv == nil {
+		return nil, nil, false
+	}
+	a = new(big.Int).Mod(new(big.Int).Mul(r, inv), b)
+	if a.Sign() == 0 || a.Cmp(limit) >= 0 || new(big.Int).Mul(a, big.NewInt(10)).Cmp(b) < 0 {
+		return nil, nil, false
+	}
+	t := new(big.Int).Sub(new(big.Int).Mul(a, scale), r)
+	q, rem := new(big.Int).QuoRem(t, b, new(big.Int))
+	if rem.Sign() != 0 || new(big.Int).Mod(q, big.NewInt(10)).Int64() != int64(gd) || len(q.String()) != 35 {
+		return nil, nil, false
+	}
+	return a, b, true
+}
+
+// rootNearMidpoint solves for an argument of Sqrt (p = 2) or Cbrt (p = 3) whose exact root lies BELOW the midpoint of two
+// adjacent 34-digit results by between 1e-20 and 1e-15 of a unit in the last place -- where an iteration that stops one step
+// early, or starts from a poorer seed, still has an excess of that size and rounds the wrong way, while the property's
+// margin (1e-20 ulp) does not excuse it.  With N0 = a * 10^(34-len(a)) (a short) and the target root N0 + k + 1/2,
+//   (N0 + k + 1/2)^2 = N0^2 + N0 (2k+1) + (k + 1/2)^2,   (N0 + k + 1/2)^3 = N0^3 + 3 N0^2 (2k+1)/2 + ...
+// the first two terms are made a 34-digit coefficient times a power of ten by choosing 2k+1 a multiple of the odd modulus
+// that divisibility asks for; the neglected term puts the root (k + 1/2)^2 / (2 N0) resp. (k + 1/2)^2 / N0 units below the
+// midpoint: k between 10^7 and 10^9.  Drawn arguments come no closer than about 1e-2 ulp.
+func (g *Gen) rootNearMidpoint(p int) (d128.Decimal, bool) {
+	for try := 0; try < 200; try++ {
+		la := 1 + g.r.Intn(6)
+		a := randDigits(g.r, la)
+		if g.r.Intn(2) == 0 && la > 1 { // leading digit 9: the poorest seeds of the iterations
+			a = new(big.Int).Add(new(big.Int).Mul(big.NewInt(9), pow10(la-1)), new(big.Int).Rand(g.r, pow10(la-1)))
+		}
+		// divisibility asks for a power of two in a (2k+1 is odd): round a down to a multiple of it
+		ql := len(new(big.Int).Exp(a, big.NewInt(int64(p)), nil).String()) - la
+		j := uint(ql)
+		if p == 3 {
+			j = uint(ql+2) / 2
+		}
+		a.Rsh(a, j).Lsh(a, j)
+		if a.Sign() == 0 || len(a.String()) != la {
+			continue
+		}
+		n0 := new(big.Int).Mul(a, pow10(34-la))
+		var base, lin *big.Int
+		if p == 2 {
+			base = new(big.Int).Mul(n0, n0)
+			lin = new(big.Int).Set(n0)
+		} else {
+			base = new(big.Int).Mul(n0, new(big.Int).Mul(n0, n0))
+			lin = new(big.Int).Mul(big.NewInt(3), new(big.Int).Mul(n0, n0))
+			lin.Rsh(lin, 1)
+		}
+		s := len(base.String()) - 34
+		P := pow10(s)
+		m := new(big.Int).Div(P, new(big.Int).GCD(nil, nil, lin, P))
+		if m.Bit(0) == 0 || m.Cmp(big.NewInt(1000000000)) > 0 {
+			continue
+		}
+		// 2k+1 = m * odd, in [2e7, 3e9] spread over the decades
+		lo := []int64{20000000, 200000000, 1000000000}[g.r.Intn(3)]
+		o := new(big.Int).Div(big.NewInt(lo+g.r.Int63n(2*lo)), m)
+		o.Or(o, big.NewInt(1))
+		tk := new(big.Int).Mul(m, o)
+		num := new(big.Int).Add(base, new(big.Int).Mul(lin, tk))
+		q, r := new(big.Int).QuoRem(num, P, new(big.Int))
+		if r.Sign() != 0 || q.Cmp(pow10(33)) < 0 || q.Cmp(cMax) > 0 {
+			continue
+		}
+		q.Add(q, big.NewInt(int64([]int{0, 0, 0, 1, -1}[g.r.Intn(5)])))
+		e := s%p + p*(g.r.Intn(21)-10-s/p)
+		return mk(p == 3 && g.r.Intn(2) == 0, q, e), true
+	}
+	return d128.Decimal{}, false
 }
